@@ -78,6 +78,13 @@ def inputs(rng, name, tier, n):
     if b.endswith("bsdi_crypt"):
         slist = [s for s in slist if s.get("rounds", 1) <= 70]
     rng.shuffle(slist)
+    if b == "bcrypt":
+        # every ident x password class (the $2$ emulation repeats the password to 72 bytes: multi-byte characters
+        # cut at the 72-byte boundary matter under os_crypt)
+        for ident in ("2", "2a", "2y", "2b"):
+            for pw in ("\u20acab", "\U0001f511key", H.pw_text(rng, 5, (2, 3)), H.pw_bytes(rng, rng.choice([7, 23, 71, 72, 73, 100])),
+                       H.pw_bytes(rng, 9, "high")):
+                out.append((dict(ident=ident, rounds=4, salt=H.gen_salt(h, rng, 22)), pw, "text" if isinstance(pw, str) else "binary"))
     for k, st in enumerate(slist[:n]):
         ln = H.C02_LENGTHS[(k * 5 + len(name)) % len(H.C02_LENGTHS)]
         kind = ("ascii", "binary", "high", "text")[k % 4]
@@ -128,7 +135,15 @@ def agree(run, name):
                 h.set_backend(b)
                 if h.get_backend() != b:
                     run.violation(f"C03|{name}|{b}|select|wrong-backend", f"{name}: set_backend({b!r}) left get_backend()={h.get_backend()!r}", dict(name=name))
+                first = H.apply(h, st).hash(pw)
+                # availability queries are read-only: they must not disturb the selected backend
+                for other in h.backends:
+                    h.has_backend(other)
                 results[b] = H.apply(h, st).hash(pw)
+                run.count("has_backend_queries", len(h.backends))
+                if results[b] != first or h.get_backend() != b:
+                    run.violation(f"C03|{own}|has_backend-changes-state", f"{name}: has_backend() queries changed the result/selection under backend {b!r}",
+                                  dict(name=name, backend=b, before=first, after=results[b], get_backend=h.get_backend()))
             except Exception as e:
                 if (b == "os_crypt" and own == "bcrypt" and not H.is_utf8(secret) and isinstance(e, ValueError)):
                     run.violation(f"C03|{own}|os_crypt|non-utf8-refused",
@@ -208,7 +223,9 @@ def fresh(run, name, mode):
 
 
 def ledger(run, seq_seed, length):
-    """set_backend sequences across hashers; every *other* hasher's outputs stay the same"""
+    """set_backend / has_backend sequences across hashers: the outputs of every hasher stay the same (all backends
+    agree, queries are read-only); the only admitted change is the documented refusal of non-UTF-8 bytes by a
+    bcrypt-family hasher whose *reported* backend is os_crypt (known finding)"""
     rng = run.rng(f"ledger:{seq_seed}")
     fixed = {}
     for n in MULTI:
@@ -217,35 +234,55 @@ def ledger(run, seq_seed, length):
         if "rounds" in h.setting_kwds:
             st["rounds"] = H.rounds_values(h, "quick")[0]
         st["salt"] = H.gen_salt(h, rng)
-        fixed[n] = (st, H.pw_bytes(rng, rng.choice([1, 8, 17])).decode())
+        fixed[n] = (st, H.pw_bytes(rng, rng.choice([1, 8, 17])).decode(), H.pw_bytes(rng, rng.choice([2, 9]), "high"))
 
     def snapshot():
         out = {}
-        for n, (st, pw) in fixed.items():
-            out[n] = H.apply(H.get(n), st).hash(pw)
+        for n, (st, pw, raw) in fixed.items():
+            hh = H.apply(H.get(n), st)
+            out[n] = hh.hash(pw)
+            try:
+                out[n + "/non-utf8"] = hh.hash(raw)
+            except ValueError as e:
+                out[n + "/non-utf8"] = "refused:" + type(e).__name__
         return out
+    for n in MULTI:
+        if owner_name(n) == "bcrypt":
+            H.get(n).set_backend("bcrypt")
     base = snapshot()
     seq = []
     for step in range(length):
         n = rng.choice(MULTI)
         h = H.get(n)
-        cands = [b for b in h.backends if _has(h, b)]
-        b = rng.choice(cands)
-        seq.append((n, b))
+        kind = rng.choice(["set", "set", "query"])
         try:
-            h.set_backend(b)
+            if kind == "query":
+                b = rng.choice(list(h.backends))
+                h.has_backend(b)
+            else:
+                b = rng.choice([x for x in h.backends if _has(h, x)])
+                h.set_backend(b)
         except Exception as e:
-            run.violation(f"C03|{n}|{b}|select|{type(e).__name__}", f"{n}: set_backend({b!r}) failed in sequence: {e}", dict(seq=seq))
+            run.violation(f"C03|{n}|{b}|select|{type(e).__name__}", f"{n}: {kind} {b!r} failed in sequence: {e}", dict(seq=seq))
             continue
+        seq.append((kind, n, b))
         now = snapshot()
-        changed = [m for m in now if now[m] != base[m]]
+        changed = []
+        for m in now:
+            if now[m] == base[m]:
+                continue
+            hn = m.split("/")[0]
+            if m.endswith("/non-utf8") and owner_name(hn) == "bcrypt" and H.get(hn).get_backend() == "os_crypt" and now[m].startswith("refused:"):
+                run.count("ledger_known_os_crypt_refusal")
+                continue
+            changed.append(m)
         backends = {m: H.get(m).get_backend() for m in MULTI}
         run.case(("ledger", tuple(seq[-3:])), dict(sequence=list(seq), backends=backends))
         run.count("ledger_steps")
+        run.count(f"ledger_{kind}")
         if changed:
-            run.violation(f"C03|ledger|{n}->{','.join(sorted(changed))}|output-changed",
-                          f"selecting backend {b!r} of {n} changed the output of {changed}", dict(sequence=seq, changed=changed))
-            base = now
+            run.violation(f"C03|ledger|{kind}|{owner_name(n)}|output-changed",
+                          f"{kind} backend {b!r} of {n} changed the outcome of {changed}", dict(sequence=seq, changed=changed, now={m: now[m] for m in changed}, before={m: base[m] for m in changed}))
 
 
 def _has(h, b):
